@@ -116,6 +116,26 @@ func (w *World) ruleCommaOkSides(r *Report, rule string, min int, want func(fn *
 						continue // handed back beside the flag that says it is not valid
 					case *ssa.Store:
 						continue // spilled to a variable cell (captured by a closure): its later reads are not followed
+					case *ssa.Call:
+						// handed to a helper together with the flag (or a flag merged from it):
+						// the helper decides, as with a return beside the flag
+						c := ref.(*ssa.Call)
+						withFlag := false
+						for _, a := range c.Call.Args {
+							if a == ssa.Value(okv) {
+								withFlag = true
+							}
+							if ph, isPhi := a.(*ssa.Phi); isPhi && typeStr(ph.Type()) == "bool" {
+								for _, e := range ph.Edges {
+									if e == ssa.Value(okv) {
+										withFlag = true
+									}
+								}
+							}
+						}
+						if withFlag {
+							continue
+						}
 					}
 					uses++
 					ub := ref.Block()
